@@ -69,7 +69,8 @@ def _mk_config(J, rule_path, macro_paths, inp, binary, mode):
     )
 
 
-def run_pair(J, rule_path, macro_paths, inp, binary, fresh, want_regex=False, stream_only=False, repeat=False):
+def run_pair(J, rule_path, macro_paths, inp, binary, fresh, want_regex=False, stream_only=False, repeat=False,
+             interleave=None):
     """All nine observations of one (rule, input) pair.  With `repeat`, the stream (and the full list of matches)
     is asked for a second time from the SAME MasterOfPuppets object at the end (obs["again"])."""
     obs = {"outcome": "ok", "res": {}}
@@ -79,6 +80,10 @@ def run_pair(J, rule_path, macro_paths, inp, binary, fresh, want_regex=False, st
         obs["g"] = snapshot_config(J)
         if want_regex:
             obs["regex"] = mop.regex_rule
+        if interleave:
+            # another rule is compiled between this rule's compilation and its matching (its result is not used)
+            stage = "construct-other"
+            J["MasterOfPuppets"](_mk_config(J, interleave, [], inp, binary, ("S", "A", "T")))
         stage = "match"
         obs["stream"] = mop.perform_matching()
         if fresh == "batch" and not stream_only:
@@ -127,6 +132,13 @@ def run_rule(job, ri, lis, listing_paths, tmp):
         rule_path = os.path.join(tmp, f"r{os.getpid()}.yaml")
         with open(rule_path, "w", encoding="utf-8") as f:
             f.write(rule["yaml"])
+    if job.get("debug_level"):                     # the library's logger at DEBUG level (what `jasm --debug` sets)
+        J["logger"].setLevel(logging.DEBUG)
+    interleave = None
+    if job.get("interleave"):
+        interleave = os.path.join(tmp, f"r{os.getpid()}.other.yaml")
+        with open(interleave, "w", encoding="utf-8") as f:
+            f.write(job["interleave"])
     macro_paths = list(rule.get("macro_paths") or [])
     own = len(macro_paths)
     for n, text in enumerate(rule.get("macros") or []):
@@ -146,10 +158,13 @@ def run_rule(job, ri, lis, listing_paths, tmp):
                 o = {"outcome": "unavailable", "why": str(exc)}
         else:
             o = run_pair(J, rule_path, macro_paths, inp, binary, job.get("fresh", False),
-                         job.get("want_regex", False), job.get("stream_only", False), job.get("repeat", False))
+                         job.get("want_regex", False), job.get("stream_only", False), job.get("repeat", False),
+                         interleave)
+            if job.get("retry"):     # the same operation attempted a second time in the same process
+                o["retry"] = run_pair(J, rule_path, macro_paths, inp, binary, job.get("fresh", False))
         o["r"], o["l"] = ri, li
         out.append(o)
-    for p in ([] if "rule_path" in rule else [rule_path]) + macro_paths[own:]:
+    for p in ([] if "rule_path" in rule else [rule_path]) + macro_paths[own:] + ([interleave] if interleave else []):
         os.unlink(p)
     return out
 
